@@ -162,8 +162,15 @@ FOREIGN = [None, 3, 2.0, "x", "Variable(\"x\")", object(), (1, 2), [1], {"x": 1}
            frozenset(), complex(1, 1), type, len]
 
 
+AWKWARD_COORDS = [2.5e-10, 1.5e+20, -1.25e+100, 1e-10, 1e300, 1.5e+21, 1e22, 123456789.125, 0.1, -0.0, 1e-05, 2.5e-05,
+                  1.0000000000000002, 10 ** 25, -7, 3.0e+40, 1.25e-100]
+
+
 def point_objects():
     out = []
+    for v in AWKWARD_COORDS:
+        out.append(({"x": v}, Point(x=v)))
+        out.append(({"y": 1, "x": v}, Point(y=1, x=v)))
     vals = (1, 1.0, 2, -0.5)
     names = ("x", "y", "z")
     out.append(({}, Point()))
@@ -211,6 +218,38 @@ def object_set(tier):
             uniq.append(t)
     for t in uniq:
         objs.append((("E", M.key(t)), A.build(t), M.show(t)))
+    # equal variable names that are different string objects (built at run time, not interned)
+    for nm in ("x1", "theta", "rate_2", "é1", "xy"):
+        for mk in (lambda n: n, F.fresh_str, lambda n: "".join(list(n))):
+            for t in (V(nm), Add(V(nm), C(1)), Mul(V(nm), x)):
+                tt = M.with_children(t, [V(mk(nm)) if c == V(nm) else c for c in M.children(t)]) if t[0] != "var" else V(mk(nm))
+                objs.append((("E", M.key(t)), A.build(tt), f"{M.show(t)} [name object {mk.__name__ if hasattr(mk, '__name__') else 'copy'}]"))
+                objs.append((("Partial", M.key(t), nm), Partial(A.build(tt), mk(nm)), f"Partial({M.show(t)}, {nm!r})"))
+    # expressions handed back by as_expression() after the original was hashed / printed / evaluated: they are
+    # ordinary expressions and must hash and compare like freshly built equal ones
+    derived_src = [t for t in uniq if M.variables(t) and 2 <= M.size(t) <= 7][:: (3 if tier == "thorough" else 9)]
+    # parameterised nodes over inner expressions that simplification rebuilds
+    derived_src += [Exp(Mul(C(2), Mul(C(3), x))), NPow(Add(x, C(0)), 3), Log(Mul(x, C(1))), Root(Neg(Neg(x)), 3),
+                    Exp(Add(x, Add(y, C(1))), 2), Mul(y, Exp(Mul(C(2), Mul(C(3), x)))), Log(Add(x, Add(y, y)), 10),
+                    NPow(Mul(x, Mul(y, C(2))), 2), Root(Mul(C(1), x), 2), Add(Exp(Minus(x, C(0)), 3), y)]
+    derived_src += [t for t in M.terms_up_to(M.SIGMA_FULL, 3) if M.variables(t) and M.size(t) == 3 and t[0] in ("npow", "root", "exp", "log")
+                    and t[1][0] not in ("var", "const")][:: (1 if tier == "thorough" else 7)]
+    for t in derived_src:
+        e = A.build(t)
+        hash(e); repr(e)
+        vname = sorted(M.variables(t))[0]
+        for thunk in (lambda: Partial(e, vname).as_expression(), lambda: Differential(e, compute_early=True).component(vname).as_expression()):
+            o = A.construct(thunk)
+            if o[0] != "ok":
+                continue
+            try:
+                dt = A.reify(o[1])
+            except A.ReifyError:
+                continue
+            if M.size(dt) > 40:
+                continue
+            objs.append((("E", M.key(dt)), o[1], f"as_expression() of a derivative of {M.show(t)} (original hashed and printed first)"))
+            objs.append((("E", M.key(dt)), A.build(dt), f"fresh copy of {M.show(dt)[:120]}"))
     twin_src = [t for t in uniq if M.variables(t) and M.size(t) >= 2]
     for t in twin_src[:: max(1, len(twin_src) // (400 if tier == "thorough" else 120))]:
         for e, label in used_twins(t):
@@ -218,7 +257,7 @@ def object_set(tier):
             objs.append((("Partial", M.key(t), "x"), Partial(e, "x"), f"Partial({M.show(t)} [{label}], x)"))
     pts = point_objects()
     if tier != "thorough":
-        pts = pts[::2]
+        pts = pts[:2 * len(AWKWARD_COORDS)] + pts[2 * len(AWKWARD_COORDS)::2]
     for d, p in pts:
         objs.append((point_key(d), p, repr(d)))
     # derivative objects over a subset
